@@ -540,7 +540,7 @@ func (e *escaper) escapeTemplate(c context, n *parse.TemplateNode) context {
 // from template names mangled with different contexts.
 func mangle(c context, templateName string) string {
 	// The mangled name for the default context is the input templateName.
-	if c.state == stateText {
+	if c.state == stateText && c.element.name == "" && len(c.element.names) == 0 {
 		return templateName
 	}
 	s := templateName + "$htmltemplate_" + c.state.String()
@@ -552,6 +552,14 @@ func mangle(c context, templateName string) string {
 	}
 	if c.element.name != "" {
 		s += "_" + c.element.String()
+	}
+	if len(c.attr.names) > 0 {
+		// The sanitizers of an action depend on every name that a conditional can give
+		// to the attribute or the element.
+		s += "_attrs(" + strings.Join(c.attr.names, ",") + ")"
+	}
+	if len(c.element.names) > 0 {
+		s += "_elements(" + strings.Join(c.element.names, ",") + ")"
 	}
 	if c.element.nameUnfinished {
 		// Text at the start of the called template would extend the element name.
